@@ -300,6 +300,9 @@ func main() {
 					c10 = "well-formed expression rejected: " + res
 				}
 			}
+			if tag == "opencomment" && !strings.HasPrefix(res, "ERR") {
+				c10 = "an expression with an unterminated /* comment is accepted: " + res
+			}
 			out.put("parse "+encStr(src), res, verdict("C10", c10), verdict("C08", panicOnly(res)))
 		}
 		out.close()
